@@ -8,7 +8,7 @@ import numpy as np
 
 from simkit import batch, graphwalk
 from simkit.batch import dd_list
-from simkit.values import T, TracerOverflow, fingerprint, norm, same
+from simkit.values import T, TracerOverflow, W, fingerprint, norm, same
 
 BOX = {1: 4, 2: 2, 3: 1}  # per-axis maximal order covered by the oracle table
 SERIES = ("H_tilde", "U", "U_inv")
@@ -491,6 +491,8 @@ class Inputs:
                 self.vecs = tuple(np.ascontiguousarray(Q[:, c]) for c in cols)  # the last block stays implicit
         if w["fmt"] == "scalar_vecs":
             Q, _ = np.linalg.qr(rg.normal(size=(N, N)) + 1j * rg.normal(size=(N, N)))
+            if w["domain"] == "wrapped":
+                Q = np.eye(N, dtype=complex)  # exact projections: the library can only test a foreign element type with `== 0`
             if w["herm"]:
                 R, L = Q, Q
             else:
@@ -516,6 +518,11 @@ class Inputs:
                         if not self.sym and w["domain"] == "dense":
                             sub = np.ascontiguousarray(sub)
                         self.blocks[(i, j, *o)] = sub
+        if w["domain"] == "wrapped":
+            # a caller-defined element type around the same numbers
+            self.blocks = {k: W(v) for k, v in self.blocks.items()}
+            if w["fmt"] != "blocked":
+                self.full = {o: W(v) for o, v in self.full.items()}
         # sparse inputs are handed over in the caller's favourite formats (the harness itself works on CSR)
         if not self.sym and w["domain"] == "sparse" and w.get("sparse_fmts") and w["fmt"] != "implicit":
             from scipy import sparse
@@ -588,6 +595,7 @@ class Sim:
         self.w = world
         self.env = env
         self.inp = Inputs(world)
+        W.hook = (lambda: env.tick("Mw", None)) if world["domain"] == "wrapped" else None
         self.comps = {}
         self.chain_h = {}
         inp = self.inp
@@ -724,6 +732,8 @@ class Sim:
         def div(Y, i, j):
             if Y is zero:
                 return zero
+            if isinstance(Y, W):
+                return W(div(Y.a, i, j))
             ea = e[int(inp.offs[i]):int(inp.offs[i + 1])]
             eb = e[int(inp.offs[j]):int(inp.offs[j + 1])]
             diff = ea.reshape(-1, 1) - eb.reshape(1, -1)
@@ -1515,7 +1525,7 @@ class GraphProp:
     def gen_world(self, r, tier, profile):
         npert = r.choice([1, 1, 1, 2, 2, 3])
         nb = r.choice([1, 2, 2, 2, 3, 3, 4])
-        domain = r.choice(profile.get("domains", ["dense"] * 12 + ["sparse"] * 4 + ["sym"] * 2 + ["tracer"] * 4 + ["sq"]))
+        domain = r.choice(profile.get("domains", ["dense"] * 12 + ["sparse"] * 4 + ["sym"] * 2 + ["tracer"] * 4 + ["sq"] + ["wrapped"] * 2))
         if domain == "sym":
             nb = min(nb, 2)
             npert = 1
@@ -1525,6 +1535,8 @@ class GraphProp:
         if domain == "sq":
             nb = 2
             npert = min(npert, 2)
+        if domain == "wrapped":
+            nb = max(nb, 2)
         sizes = [r.choice([1, 1, 2, 2, 3] if domain != "sym" else [1, 1, 2]) for _ in range(nb)]
         herm = r.random() < 0.65
         fmt = r.choice(profile.get("fmts", ["blocked"] * 10 + ["scalar_idx"] * 4 + ["scalar_vecs", "scalar_vecs", "dict", "dict", "list", "list", "nested", "nested", "symkeys"]))
@@ -1532,6 +1544,8 @@ class GraphProp:
             fmt = r.choice(["blocked", "blocked", "blocked", "sympy_expr", "symkeys"]) if "fmts" not in profile else "blocked"
         if domain in ("tracer", "sq"):
             fmt = "blocked"
+        if domain == "wrapped":
+            fmt = r.choice(["blocked", "blocked", "scalar_vecs"])
         if domain == "sparse" and fmt == "scalar_vecs":
             fmt = "scalar_idx"
         if domain == "dense" and r.random() < profile.get("p_implicit", 0.08):
@@ -1605,6 +1619,17 @@ class GraphProp:
                 spec["solver"] = "default"
                 spec.pop("chain", None)
             w.pop("illposed", None)
+        if domain == "wrapped":
+            # the library cannot look inside a caller-defined element type: the caller brings the solver, no masks
+            w.pop("illposed", None)
+            w["sectors"] = False
+            w["zero_level"] = False
+            w["h_data"] = False
+            w["view_input"] = False
+            for spec in comps:
+                spec["fd"] = None
+                spec["solver"] = "custom"
+                spec.pop("chain", None)
         if domain == "sq":
             w["cap"] = 2
             w["sizes"] = [1, 1]
